@@ -365,7 +365,7 @@ Section OrdSetProofs.
   Notation oos_to_list := (oos_to_list T).
 
   Theorem oos_nonempty v : oos_wf v -> oos_to_list v <> [].
-  Proof. destruct v as [x|l]; cbn; [discriminate|tauto]. Qed.
+  Proof. destruct v as [x|l]; cbn; [discriminate|]. intros [H _] E. subst. cbn in H. lia. Qed.
   Theorem oos_unique v : oos_wf v -> Inv (oos_to_list v).
   Proof. destruct v as [x|l]; cbn; [|tauto]. intros _. unfold Inv. cbn. constructor; [tauto|constructor]. Qed.
 
@@ -375,7 +375,7 @@ Section OrdSetProofs.
     | Some v => oos_wf v /\ oos_to_list v = l
     end.
   Proof.
-    intros H. destruct l as [|x [|y r]]; cbn; auto. split; [|reflexivity]. split; [discriminate|exact H].
+    intros H. destruct l as [|x [|y r]]; cbn; auto. split; [|reflexivity]. split; [lia|exact H].
   Qed.
 
   Theorem oos_try_from_vec_spec l :
@@ -395,12 +395,12 @@ Section OrdSetProofs.
     destruct v as [y|l]; cbn [OneOr.oos_append].
     - intros _. destruct (keqb (key y) (key x)) eqn:E; cbn [fst]; [exact I|].
       cbn. unfold os_from_iter. cbn. unfold os_append at 2. cbn. unfold os_append. cbn.
-      unfold os_has_key. rewrite E. cbn. split; [discriminate|].
+      unfold os_has_key. rewrite E. cbn. split; [lia|].
       constructor; [|constructor; [tauto|constructor]]. cbn. intros [H|[]].
       apply keqb_false in E. congruence.
     - intros [Hne Hi]. pose proof (append_inv l x Hi) as A. unfold os_append in *.
       destruct (contains l (key x)); cbn [fst] in *; split; auto.
-      destruct l; discriminate.
+      rewrite app_length. cbn [length]. lia.
   Qed.
 
   Theorem oos_map_wf f v : oos_wf v -> oos_wf (oos_map f v).
@@ -408,10 +408,10 @@ Section OrdSetProofs.
     destruct v as [y|l]; cbn [OneOr.oos_map]; [tauto|].
     intros [Hne _]. pose proof (from_iter_inv (map f l)) as Hi.
     assert (from_iter (map f l) <> []) as Hn.
-    { destruct l as [|a l]; [congruence|]. cbn [map].
+    { destruct l as [|a l]; [cbn in Hne; lia|]. cbn [map].
       destruct (from_iter_keeps_first [f a] (map f l)) as [suf E]. cbn [app] in E. rewrite E.
       unfold os_from_iter. cbn. discriminate. }
-    destruct (from_iter (map f l)) as [|a [|b r]]; cbn; [congruence|exact I|]. split; [discriminate|exact Hi].
+    destruct (from_iter (map f l)) as [|a [|b r]]; cbn; [congruence|exact I|]. split; [lia|exact Hi].
   Qed.
 
   Theorem oos_singleton_bare_one x : oos_ser (oos_new_one T x) = JVal x.
@@ -423,19 +423,23 @@ Section OrdSetProofs.
 
   Theorem oos_deser_ser v : oos_wf v -> oos_deser (oos_ser v) = Some v.
   Proof.
-    destruct v as [x|l]; cbn; [reflexivity|]. intros [Hne Hi].
+    destruct v as [x|l]; cbn; [reflexivity|]. intros [Hne Hi]. unfold OneOr.oos_deser, oos_deser_gen.
     assert (try_from_vec l = Some l) as -> by (apply try_from_vec_iff; auto).
-    destruct l; [congruence|reflexivity].
+    destruct l as [|a [|b r]]; cbn in Hne; try lia. reflexivity.
   Qed.
 
   Theorem oos_deser_wf j v : oos_deser j = Some v -> oos_wf v.
   Proof.
-    destruct j as [x|xs]; cbn.
+    unfold OneOr.oos_deser, oos_deser_gen. destruct j as [x|xs]; cbn.
     - intros H. inversion H. exact I.
     - destruct (try_from_vec xs) as [s|] eqn:E; [|discriminate].
-      apply try_from_vec_iff in E as [Hn ->]. destruct xs as [|a r]; [discriminate|].
-      intros H. inversion H; subst. split; [discriminate|exact Hn].
+      apply try_from_vec_iff in E as [Hn ->]. destruct xs as [|a [|b r]]; [discriminate| |].
+      + intros H. inversion H; subst. exact I.
+      + intros H. inversion H; subst. split; [cbn [length]; lia|exact Hn].
   Qed.
+  (* the tree before the fix: a one-element array deserialised to a one-element Set, unequal to the One every constructor builds from the same item *)
+  Theorem oos_deser_pinned_singleton_set x : oos_deser_gen T K key keqb true (JArr [x]) = Some (OSSet [x]) /\ oos_deser (JArr [x]) = Some (OSOne x).
+  Proof. unfold OneOr.oos_deser, oos_deser_gen. cbn. split; reflexivity. Qed.
 
   (* ---------- OneOrMany ---------- *)
   Theorem oom_deser_ser (v : oneormany T) : oom_deser T (oom_ser T v) = Some v.
